@@ -405,6 +405,7 @@ func runC05(c *Ctx) {
 	// Diff and Update read both bundles through the file-list / data fan-outs: a lost chunk of entries changes the diff
 	checkCoreFanouts(c)
 	checkUpdateRunsAllPhases(c, "update-metadata.all-phases")
+	checkLocalMetadataScannersSkipData(c, "siblings.local-metadata-scanners-skip-data")
 }
 
 // condShape abstracts the guards of diffBundles: "present" for the ok flag of a map lookup, "hash-differs" for a
